@@ -25,8 +25,9 @@ TOL = {True: 1e-5, False: 2e-3}
 SLOTS = ["labile", "unknown", "nterm", "cterm", "internal0", "internalL", "interval", "staticAA", "staticN", "staticC"]
 KINDS = [("num", None), ("formula", "C2H3"), ("formula", "[13C2]N"), ("formula", "H-2O"), ("formula", "C2H2[13C2]H2O"), ("formula", "[13C2]H3N[13C]"), ("glycan", "Hex2"),
          ("glycan", "HexNAc2Hex3"), ("unimod", "Acetyl"), ("unimod", "U:Oxidation"), ("unimod", "UNIMOD:1")]
-SEQS_Q = ["P", "PE", "PEP", "GASP"]
-SEQS_T = ["P", "PE", "PEP", "GASP", "KVKAW", "MMRMQY"]
+# since session 5 the quick tier runs what used to be the thorough scope (seconds); thorough adds longer peptides
+SEQS_Q = ["P", "PE", "PEP", "GASP", "KVKAW", "MMRMQY"]
+SEQS_T = SEQS_Q + ["CDEFHILNT", "UOSTVWYACDEFGHIK"]
 
 
 def _place(sc: Dict[str, Any], slot: str, spec: Tuple[Any, Any, int]) -> bool:
@@ -96,7 +97,7 @@ def scenarios(tier: str) -> List[Dict[str, Any]]:
         for slot in SLOTS:
             for kind, arg in KINDS:
                 for mult in (1, 2, 3):
-                    if tier == "quick" and mult == 3 and kind != "num":
+                    if False:
                         continue
                     for mono in (True, False):
                         sc = {"seq": seq}
@@ -105,7 +106,7 @@ def scenarios(tier: str) -> List[Dict[str, Any]]:
     # (c) every pair of slots, kinds rotated, both modes; labile with fragment ion types (labile excluded)
     for seq in seqs[1:]:
         for (s1, s2) in itertools.combinations(SLOTS, 2):
-            for r in range(len(KINDS) if tier == "thorough" else 3):
+            for r in range(len(KINDS)):
                 k1 = KINDS[(r + SLOTS.index(s1)) % len(KINDS)]
                 k2 = KINDS[(r * 2 + SLOTS.index(s2) + 1) % len(KINDS)]
                 for mono in (True, False):
